@@ -784,10 +784,19 @@ func (fr *frame) visit(in ssa.Instruction) (jumped bool) {
 				it.keys, it.vals = append([]value{}, x.keys...), append([]value{}, x.vals...)
 			}
 			fr.env[in] = it
+		case *Str:
+			if x.Blob != nil {
+				panic(pathEnd{kind: "unsupported", msg: "raw byte access into an encoded document"})
+			}
+			fr.env[in] = &strIter{s: x}
 		default:
 			panic(pathEnd{kind: "unsupported", msg: fmt.Sprintf("range over %T in %s", x, fr.fn)})
 		}
 	case *ssa.Next:
+		if si, isStr := fr.get(in.Iter).(*strIter); isStr {
+			fr.env[in] = fr.nextRune(si)
+			break
+		}
 		it, ok := fr.get(in.Iter).(*mapIter)
 		if !ok || in.IsString {
 			panic(pathEnd{kind: "unsupported", msg: "next over a string iterator in " + fr.fn.String()})
@@ -1504,6 +1513,60 @@ func init() {
 	if os.Getenv("GOSX_FORKS") != "" {
 		forkStats = map[string]int{}
 	}
+}
+
+// strIter: `for i, r := range s` — position in bytes (concrete: every step decides the width of the rune it decodes).
+type strIter struct {
+	s   *Str
+	pos int
+}
+
+// nextRune decodes one UTF-8 rune at the iterator's position, with Go's semantics (invalid or truncated encodings give
+// U+FFFD and advance one byte). The class of the lead byte and the validity of the continuation bytes are decided by
+// forking, so the width — and with it the next position — is concrete on every path.
+func (fr *frame) nextRune(it *strIter) value {
+	st := fr.st
+	s := it.s
+	i := it.pos
+	c := func(v int64) *Term { return BVConstI(v, 8) }
+	if !st.decide(BVCmp("bvult", BVConstI(int64(i), 64), s.Len)) {
+		return tuple{False, BVConstI(0, 64), BVConstI(0, 32)}
+	}
+	b0 := s.at(i)
+	r32 := func(b *Term) *Term { return Resize(b, 32, false) }
+	ret := func(r *Term, w int) value {
+		it.pos += w
+		return tuple{True, BVConstI(int64(i), 64), r}
+	}
+	inStr := func(k int) *Term { return BVCmp("bvult", BVConstI(int64(i+k), 64), s.Len) }
+	cont := func(k int) *Term {
+		return And(inStr(k), And(BVCmp("bvuge", s.at(i+k), c(0x80)), BVCmp("bvule", s.at(i+k), c(0xBF))))
+	}
+	low6 := func(k int) *Term { return BVBin("bvand", r32(s.at(i+k)), BVConstI(0x3F, 32)) }
+	shl := func(t *Term, n int64) *Term { return BVBin("bvshl", t, BVConstI(n, 32)) }
+	if st.decide(BVCmp("bvult", b0, c(0x80))) {
+		return ret(r32(b0), 1)
+	}
+	// two bytes: C2..DF 80..BF
+	if st.decide(And(And(BVCmp("bvuge", b0, c(0xC2)), BVCmp("bvule", b0, c(0xDF))), cont(1))) {
+		r := BVBin("bvor", shl(BVBin("bvand", r32(b0), BVConstI(0x1F, 32)), 6), low6(1))
+		return ret(r, 2)
+	}
+	// three bytes: E0 A0..BF, E1..EC 80..BF, ED 80..9F, EE..EF 80..BF, then one continuation byte
+	second3 := Or(Or(And(Eq(b0, c(0xE0)), BVCmp("bvuge", s.at(i+1), c(0xA0))), And(Eq(b0, c(0xED)), BVCmp("bvule", s.at(i+1), c(0x9F)))),
+		And(And(BVCmp("bvuge", b0, c(0xE1)), BVCmp("bvule", b0, c(0xEF))), Not(Eq(b0, c(0xED)))))
+	if st.decide(And(And(And(BVCmp("bvuge", b0, c(0xE0)), BVCmp("bvule", b0, c(0xEF))), second3), And(cont(1), cont(2)))) {
+		r := BVBin("bvor", BVBin("bvor", shl(BVBin("bvand", r32(b0), BVConstI(0x0F, 32)), 12), shl(low6(1), 6)), low6(2))
+		return ret(r, 3)
+	}
+	// four bytes: F0 90..BF, F1..F3 80..BF, F4 80..8F, then two continuation bytes
+	second4 := Or(Or(And(Eq(b0, c(0xF0)), BVCmp("bvuge", s.at(i+1), c(0x90))), And(Eq(b0, c(0xF4)), BVCmp("bvule", s.at(i+1), c(0x8F)))),
+		And(BVCmp("bvuge", b0, c(0xF1)), BVCmp("bvule", b0, c(0xF3))))
+	if st.decide(And(And(And(BVCmp("bvuge", b0, c(0xF0)), BVCmp("bvule", b0, c(0xF4))), second4), And(cont(1), And(cont(2), cont(3))))) {
+		r := BVBin("bvor", BVBin("bvor", shl(BVBin("bvand", r32(b0), BVConstI(0x07, 32)), 18), shl(low6(1), 12)), BVBin("bvor", shl(low6(2), 6), low6(3)))
+		return ret(r, 4)
+	}
+	return ret(BVConstI(0xFFFD, 32), 1)
 }
 
 type mapIter struct {
